@@ -239,8 +239,10 @@ def std_configs(rng, thorough, top, compiled_both=True):
             for compiled in ((True, False) if compiled_both else (rng.random() < 0.5,)):
                 out.append({"endian": endian, "align": align, "compiled": compiled,
                             "ptr": rng.choice(ptr_pool) if gen.has_ptr(top) else "uint64"})
-    if thorough and rng.random() < 0.3:
-        out.append({"endian": "!", "align": rng.random() < 0.5, "compiled": rng.random() < 0.5, "ptr": "uint64"})
+    if rng.random() < (1.0 if thorough else 0.5):
+        # the network byte order code is a third spelling of big endian
+        out.append({"endian": "!", "align": rng.random() < 0.5, "compiled": rng.random() < 0.5,
+                    "ptr": rng.choice(ptr_pool) if gen.has_ptr(top) else "uint64"})
     return out
 
 
